@@ -148,7 +148,13 @@ class YPPrologCompiler:
     def pop_bound_vars(self):
         self.bound_vars.pop()
     def filter_free_variables(self,variables):
-        return list(set([ v for v in variables if v not in self.bound_vars[-1] ]))
+        # keep the order of first occurrence, so that the output does not
+        # depend on the iteration order of a set of strings (hash seed)
+        free = []
+        for v in variables:
+            if v not in self.bound_vars[-1] and v not in free:
+                free.append(v)
+        return free
     def compile_program(self,program):
         funcs = []
         for func,clauses in program.items():
